@@ -31,6 +31,7 @@ type C06Proc struct {
 	// Schedule: map-iteration schedule of the process (the ground truth holds under every order)
 	Schedule *sim.Schedule `json:"schedule,omitempty"`
 	Parallel bool          `json:"parallel,omitempty"` // GOMAXPROCS=8
+	Unpriv   bool          `json:"unpriv,omitempty"`   // runs as an ordinary user owning the project
 }
 
 type C06Scenario struct {
@@ -43,6 +44,10 @@ type C06Scenario struct {
 	Noise []bool `json:"noise,omitempty"`
 	// Deep[d]: directory d also holds a directory chain deeper than PATH_MAX between its package directories
 	Deep []bool `json:"deep,omitempty"`
+	// Crashed[d] != 0: directory d is found as an earlier removal left it when it was interrupted: some
+	// files already cleaned, some cleaned halfway (coca rewrites a file once per removed line), some
+	// untouched; the value seeds which file is in which state
+	Crashed []uint64 `json:"crashed,omitempty"`
 }
 
 type C06 struct{}
@@ -76,6 +81,11 @@ func (C06) Generate(t *tape.Tape, tier string) interface{} {
 		sc.Dirs = append(sc.Dirs, gen.GenImportProject(t, mf))
 		sc.Noise = append(sc.Noise, t.Bool(1, 4))
 		sc.Deep = append(sc.Deep, t.Bool(1, 6))
+		if t.Bool(1, 6) {
+			sc.Crashed = append(sc.Crashed, t.Seed64()|1)
+		} else {
+			sc.Crashed = append(sc.Crashed, 0)
+		}
 	}
 	// history: every directory is cleaned at least once; second runs in the same process or after a restart
 	var first C06Proc
@@ -118,6 +128,7 @@ func (C06) Generate(t *tape.Tape, tier string) interface{} {
 	sc.CwdIgnore = t.Bool(1, 3)
 	for i := range sc.Procs {
 		sc.Procs[i].Parallel = t.Bool(1, 6)
+		sc.Procs[i].Unpriv = t.Bool(1, 6)
 		if t.Bool(1, 3) {
 			sc.Procs[i].Schedule = &sim.Schedule{Tail: []string{"seeded", "reverse", "rotate"}[t.Pick(3)], Seed: t.Seed64()}
 		}
@@ -161,10 +172,19 @@ func (C06) Run(ctx *sim.RunCtx, data json.RawMessage) (*sim.Outcome, error) {
 		out.Faults["working-directory-holds-gitignore"]++
 	}
 	out.ContentHash = hashJSON(sc)
+	// the directories as the first process finds them: as generated, or as an interrupted removal left them
+	found := make([][]gen.ImportFile, len(sc.Dirs))
+	for d := range sc.Dirs {
+		found[d] = sc.Dirs[d]
+		if d < len(sc.Crashed) && sc.Crashed[d] != 0 {
+			found[d] = crashState(sc.Dirs[d], sc.Crashed[d])
+			out.Faults["earlier-removal-interrupted"]++
+		}
+	}
 	dirs := make([]string, len(sc.Dirs))
 	state := make([]map[string]snapEnt, len(sc.Dirs)) // expected current state per dir
 	cleaned := make([]int, len(sc.Dirs))
-	for d, files := range sc.Dirs {
+	for d, files := range found {
 		dirs[d] = filepath.Join(ctx.Dir, fmt.Sprintf("proj%d", d))
 		state[d] = map[string]snapEnt{}
 		for _, f := range files {
@@ -187,7 +207,17 @@ func (C06) Run(ctx *sim.RunCtx, data json.RawMessage) (*sim.Outcome, error) {
 			state[d][f.Path] = snapEnt{Mode: mode.String(), Text: text}
 		}
 		if d < len(sc.Noise) && sc.Noise[d] {
-			for name, text := range map[string]string{".gitignore": "*.iml\n*.log\n", "00_aaa.iml": "<module/>\n", "a/00_first.log": "log\n", "zz_last.log": "log\n"} {
+			noise := map[string]string{".gitignore": "*.iml\n*.log\n", "00_aaa.iml": "<module/>\n", "a/00_first.log": "log\n", "zz_last.log": "log\n"}
+			for _, f := range files {
+				// what merge tools, editors and interrupted rewrites leave next to a source
+				dir, base := filepath.Split(filepath.FromSlash(f.Path))
+				noise[filepath.ToSlash(dir+"."+base+".orig")] = "kept by a merge tool\n"
+				noise[filepath.ToSlash(dir+base+".orig")] = f.Text
+				noise[filepath.ToSlash(dir+base+"~")] = f.Text
+				noise[filepath.ToSlash(dir+base+".tmp")] = "half\n"
+				break
+			}
+			for name, text := range noise {
 				p := filepath.Join(dirs[d], filepath.FromSlash(name))
 				os.MkdirAll(filepath.Dir(p), 0755)
 				os.WriteFile(p, []byte(text), 0644)
@@ -214,12 +244,15 @@ func (C06) Run(ctx *sim.RunCtx, data json.RawMessage) (*sim.Outcome, error) {
 	secondRunOnMulti := false
 	cur := make([][]gen.ImportFile, len(sc.Dirs)) // ground truth as edits are planned
 	for d := range sc.Dirs {
-		cur[d] = expectedClean(sc.Dirs[d])
+		cur[d] = expectedClean(found[d])
 	}
 	justEdited := map[int]bool{}
 	judgeTruth := map[int][]gen.ImportFile{}
 	for pi, p := range sc.Procs {
-		proc := &sim.Proc{Schedule: sim.Canonical(), Cwd: ctx.Dir, TmpOtherFS: p.TmpOtherFS, Parallel: p.Parallel}
+		proc := &sim.Proc{Schedule: sim.Canonical(), Cwd: ctx.Dir, TmpOtherFS: p.TmpOtherFS, Parallel: p.Parallel, Unprivileged: p.Unpriv}
+		if p.Unpriv {
+			out.Faults["unprivileged-user"]++
+		}
 		if p.Parallel {
 			out.Faults["real-parallelism"]++
 		}
@@ -331,7 +364,7 @@ func (C06) Run(ctx *sim.RunCtx, data json.RawMessage) (*sim.Outcome, error) {
 					return nil, sim.Harness("edit failed: %s", rec.Panic)
 				}
 				justEdited[m.dir] = true
-				judgeTruth[m.dir] = cur2(truthAt, ri, metas, sc.Dirs[m.dir], edits)
+				judgeTruth[m.dir] = cur2(truthAt, ri, metas, found[m.dir], edits)
 			case "noise":
 				opNo++
 				lastUnused = -1
@@ -372,7 +405,7 @@ func (C06) Run(ctx *sim.RunCtx, data json.RawMessage) (*sim.Outcome, error) {
 				}
 				if d == lastUnused && cleaned[d] == 0 {
 					// first removal in this directory (or first after an edit): judge against the ground truth
-					truth := sc.Dirs[d]
+					truth := found[d]
 					if jt, ok := judgeTruth[d]; ok {
 						truth = jt
 					}
@@ -440,6 +473,51 @@ func expectedClean(files []gen.ImportFile) []gen.ImportFile {
 			g.Imports = append(g.Imports, im)
 		}
 		out = append(out, g)
+	}
+	return out
+}
+
+// crashState returns the directory as an interrupted removal left it: per file (decided by seed)
+// untouched, fully cleaned, or with only its first unused single-type import removed.
+func crashState(files []gen.ImportFile, seed uint64) []gen.ImportFile {
+	clean := expectedClean(files)
+	out := make([]gen.ImportFile, len(files))
+	for i, f := range files {
+		out[i] = f
+		if f.Exempt {
+			continue
+		}
+		switch (seed >> (uint(i%20) * 3)) % 3 {
+		case 1:
+			out[i] = clean[i]
+		case 2:
+			first := -1
+			for k, im := range f.Imports {
+				if im.Role == "" && !im.Wildcard && !im.Static {
+					first = k
+					break
+				}
+			}
+			if first < 0 {
+				continue
+			}
+			g := f
+			lines := strings.Split(f.Text, "\n")
+			ln := f.Imports[first].Line
+			lines = append(lines[:ln-1:ln-1], lines[ln:]...)
+			g.Text = strings.Join(lines, "\n")
+			g.Imports = nil
+			for k, im := range f.Imports {
+				if k == first {
+					continue
+				}
+				if im.Line > ln {
+					im.Line--
+				}
+				g.Imports = append(g.Imports, im)
+			}
+			out[i] = g
+		}
 	}
 	return out
 }
